@@ -21,7 +21,29 @@ class Kernel:
 
     def inst(self, arg_terms, declare=False):
         """-> dict(decls [..], val (mir value), panic term, side [..]) for the given argument terms.
-        arg_terms are SMT terms of the right sorts (symbols or literals)."""
+        arg_terms are SMT terms of the right sorts (symbols or literals).
+        Scalar kernels are translated once into a template (placeholders for arguments, fresh symbols renamed per use)."""
+        tpl = getattr(self, "_tpl", None)
+        if tpl is None:
+            ph = ["@%d@" % i for i in range(len(arg_terms))]
+            t = self._inst_slow(ph)
+            self._tpl = t if isinstance(t["val"], mir.V) else False
+            tpl = self._tpl
+        if tpl:
+            Kernel._uid += 1
+            uid = Kernel._uid
+
+            def sub(x):
+                x = re.sub(r"!(\d+)", lambda m: "!%d_%s" % (uid, m.group(1)), x)
+                for i, a in enumerate(arg_terms):
+                    x = x.replace("@%d@" % i, a)
+                return x
+            return dict(decls=[sub(d) for d in tpl["decls"]], val=mir.V(tpl["val"].ty, sub(tpl["val"].t)), panic=sub(tpl["panic"]), side=[sub(x) for x in tpl["side"]])
+        return self._inst_slow(arg_terms)
+
+    _uid = 0
+
+    def _inst_slow(self, arg_terms):
         self.n += 1
         enc = mir.Enc(self.mode)
         enc.fresh = self.n * 1000
